@@ -1202,6 +1202,9 @@ func ruleProxyMiddleware(c *Ctx, a *serverAnchors, want map[string]bool) {
 			if i > P && e.Kind == "call" && e.Callee != nil && e.Callee.String() == "(*github.com/vicanso/elton.Context).Header" {
 				H = e.Result
 			}
+			if i > P && e.Kind == "call" && e.Callee != nil && H != nil && (e.Callee.String() == "(net/http.Header).Del" || e.Callee.String() == "(net/http.Header).Set") && len(e.Args) > 0 && e.Args[0].Key() == H.Key() {
+				report("response-built", "the proxy step edits the upstream's response header ("+e.Callee.Name()+" "+prettyTerm(e.Args[1])+") before the response is built: the stored response, and what the fetcher, the waiters and later hits receive, lacks a header the upstream sent, on "+where)
+			}
 			if i > P && e.Kind == "call" && e.Callee != nil && e.Callee.Name() == "AddResponseHeader" {
 				addRespAt = i
 				if H == nil || e.Args[1].Key() != H.Key() {
@@ -1251,6 +1254,8 @@ func ruleProxyMiddleware(c *Ctx, a *serverAnchors, want map[string]bool) {
 			}
 			if !called {
 				seen["fetch-no-maxage"]++
+				// whether the answer may be cached is read from the answer: the fetcher always asks
+				report("lifetime-recorded", "the fetcher's upstream answer is never examined for a lifetime on this path (a test of the request's own headers, say, stands in front of it): a cacheable answer turns the key hit-for-pass for another whole period, on "+where)
 			}
 		}
 		if newRespEv == nil {
